@@ -1621,4 +1621,418 @@ theorem quickselect_ok (cmp : Cmp3 ε α) (arr : List α) (target : Nat) (ht : t
     exact this
 
 end Select
+/-! ## `quickselect` selects the element of the rank asked for (pure total-preorder comparator) -/
+
+namespace Select
+
+theorem swap_get {l l' : List α} {i j : Nat} (h : swap l i j = some l') :
+    l'.length = l.length ∧ ∀ k, l'[k]? = if k = j then l[i]? else if k = i then l[j]? else l[k]? := by
+  unfold swap at h
+  cases hi : l[i]? with
+  | none => simp [hi] at h
+  | some a =>
+    cases hj : l[j]? with
+    | none => simp [hi, hj] at h
+    | some b =>
+      simp only [hi, hj, Option.some.injEq] at h
+      subst h
+      have hil := lt_length_of_getElem? hi
+      have hjl := lt_length_of_getElem? hj
+      refine ⟨by simp, fun k => ?_⟩
+      simp only [List.getElem?_set, List.length_set]
+      by_cases h1 : k = j
+      · subst h1; simp [hjl]
+      · by_cases h2 : k = i
+        · subst h2; simp [hil, Ne.symm h1]; intro e; exact absurd e h1
+        · simp [h1, h2, Ne.symm h1, Ne.symm h2]
+
+/-- `arr'` is `arr` with the entries of the index range `[left, right]` rearranged among themselves -/
+structure RangeRel (arr arr' : List α) (left right : Nat) : Prop where
+  len : arr'.length = arr.length
+  out : ∀ i, (i < left ∨ right < i) → arr'[i]? = arr[i]?
+  inn : ∀ j, left ≤ j → j ≤ right → ∃ j', left ≤ j' ∧ j' ≤ right ∧ arr'[j]? = arr[j']?
+
+theorem RangeRel.refl (arr : List α) (left right : Nat) : RangeRel arr arr left right :=
+  ⟨rfl, fun _ _ => rfl, fun j h1 h2 => ⟨j, h1, h2, rfl⟩⟩
+
+theorem RangeRel.trans {a b c : List α} {left right : Nat} (h1 : RangeRel a b left right)
+    (h2 : RangeRel b c left right) : RangeRel a c left right := by
+  refine ⟨h2.len.trans h1.len, fun i hi => (h2.out i hi).trans (h1.out i hi), fun j hl hr => ?_⟩
+  obtain ⟨j', a1, a2, a3⟩ := h2.inn j hl hr
+  obtain ⟨j'', b1, b2, b3⟩ := h1.inn j' a1 a2
+  exact ⟨j'', b1, b2, a3.trans b3⟩
+
+theorem RangeRel.of_swap {l l' : List α} {i j left right : Nat} (h : swap l i j = some l')
+    (hi1 : left ≤ i) (hi2 : i ≤ right) (hj1 : left ≤ j) (hj2 : j ≤ right) : RangeRel l l' left right := by
+  obtain ⟨hl, hg⟩ := swap_get h
+  refine ⟨hl, fun k hk => ?_, fun k h1 h2 => ?_⟩
+  · rw [hg k]
+    have : k ≠ j := by omega
+    have : k ≠ i := by omega
+    simp [*]
+  · rw [hg k]
+    by_cases e1 : k = j
+    · exact ⟨i, hi1, hi2, by simp [e1]⟩
+    · by_cases e2 : k = i
+      · exact ⟨j, hj1, hj2, by subst e2; simp [e1]⟩
+      · exact ⟨k, h1, h2, by simp [e1, e2]⟩
+
+/-- the comparator never fails, ignores the comparison index and computes `c3` -/
+def Pure3 (cmp : Cmp3 ε α) (c3 : α → α → Int) : Prop := ∀ i a b, cmp i a b = .ok (c3 a b)
+
+/-- the routine answers `ok` (no failure, no panic) and the payload satisfies `Q` -/
+def PureSat (Q : β → Prop) : Res ε α β → Prop
+  | .ok v _ => Q v
+  | .fail _ _ _ => False
+  | .panic => False
+
+theorem PureSat.mono {Q Q' : β → Prop} {r : Res ε α β} (h : PureSat Q r) (hq : ∀ v, Q v → Q' v) :
+    PureSat Q' r := by
+  cases r with
+  | ok v n => exact hq v h
+  | fail e b n => exact h
+  | panic => exact h
+
+theorem PureSat.bind {Q : β → Prop} {Q' : γ → Prop} {r : Res ε α β} {f : β → Nat → Res ε α γ}
+    (h : PureSat Q r) (hf : ∀ v n, Q v → PureSat Q' (f v n)) : PureSat Q' (r.bind f) := by
+  cases r with
+  | ok v n => exact hf v n h
+  | fail e b n => exact h
+  | panic => exact h
+
+section spec
+variable {cmp : Cmp3 ε α} {c3 : α → α → Int}
+
+theorem partLoop_spec (hp : Pure3 cmp c3) (pivot : α) (left right : Nat) (k : Nat) (items : List α)
+    (j ret n : Nat) (h1 : left ≤ ret) (h2 : ret ≤ j) (h3 : j + k = right) (h4 : right < items.length)
+    (hpv : items[right]? = some pivot)
+    (hA : ∀ i a, left ≤ i → i < ret → items[i]? = some a → c3 a pivot = -1)
+    (hB : ∀ i a, ret ≤ i → i < j → items[i]? = some a → c3 a pivot ≠ -1) :
+    PureSat (fun p : List α × Nat => ret ≤ p.2 ∧ p.2 ≤ right ∧ RangeRel items p.1 left right ∧
+        p.1[right]? = some pivot ∧
+        (∀ i a, left ≤ i → i < p.2 → p.1[i]? = some a → c3 a pivot = -1) ∧
+        (∀ i a, p.2 ≤ i → i < right → p.1[i]? = some a → c3 a pivot ≠ -1))
+      (partLoop cmp pivot k items j ret n) := by
+  induction k generalizing items j ret n with
+  | zero =>
+    have : j = right := by omega
+    subst this
+    exact ⟨Nat.le_refl _, h2, RangeRel.refl _ _ _, hpv, hA, hB⟩
+  | succ k ih =>
+    simp only [partLoop]
+    have hj : j < items.length := by omega
+    rw [List.getElem?_eq_getElem hj]
+    simp only [hp n]
+    split
+    · rename_i hc
+      have hc' : c3 items[j] pivot = -1 := by simpa using hc
+      obtain ⟨items', hs, hl⟩ := swap_some (l := items) (i := j) (j := ret) hj (by omega)
+      obtain ⟨_, hg⟩ := swap_get hs
+      rw [hs]
+      simp only
+      have hxj : items[j]? = some items[j] := List.getElem?_eq_getElem hj
+      refine (ih items' (j + 1) (ret + 1) (n + 1) (by omega) (by omega) (by omega) (by omega) ?_ ?_ ?_).mono ?_
+      · rw [hg right]
+        have e1 : right ≠ ret := by omega
+        have e2 : right ≠ j := by omega
+        simp only [e1, e2, ite_false]; exact hpv
+      · intro i a hi1 hi2 hia
+        rw [hg i] at hia
+        by_cases e : i = ret
+        · simp only [e, ite_true] at hia
+          rw [hxj] at hia
+          cases hia; exact hc'
+        · have : i ≠ j := by omega
+          simp only [e, this, ite_false] at hia
+          exact hA i a hi1 (by omega) hia
+      · intro i a hi1 hi2 hia
+        rw [hg i] at hia
+        have e : i ≠ ret := by omega
+        by_cases e2 : i = j
+        · simp only [e, e2, ite_false, ite_true] at hia
+          have : ret ≠ j := by omega
+          simp only [e2 ▸ e, ite_false] at hia
+          exact hB ret a (Nat.le_refl _) (by omega) hia
+        · simp only [e, e2, ite_false] at hia
+          exact hB i a (by omega) (by omega) hia
+      · intro v hv
+        obtain ⟨q1, q2, q3, q4, q5, q6⟩ := hv
+        exact ⟨by omega, q2, (RangeRel.of_swap hs (by omega) (by omega) (by omega) (by omega)).trans q3,
+          q4, q5, q6⟩
+    · rename_i hc
+      have hc' : c3 items[j] pivot ≠ -1 := by simpa using hc
+      refine (ih items (j + 1) ret (n + 1) h1 (by omega) (by omega) h4 hpv hA ?_).mono (fun v hv => hv)
+      intro i a hi1 hi2 hia
+      by_cases e : i = j
+      · subst e
+        rw [List.getElem?_eq_getElem hj] at hia
+        cases hia; exact hc'
+      · exact hB i a hi1 (by omega) hia
+
+theorem choosePivot_spec (hp : Pure3 cmp c3) (items : List α) (left right n : Nat)
+    (hlr : left ≤ right) (hr : right < items.length) :
+    PureSat (fun p : Nat => left ≤ p ∧ p ≤ right) (choosePivot cmp items left right n) := by
+  unfold choosePivot
+  have hl : left < items.length := by omega
+  have hm : (left + right) / 2 < items.length := by omega
+  have hp' : ∀ i a b, cmp i a b = .ok (c3 a b) := hp
+  simp only [List.getElem?_eq_getElem hl, List.getElem?_eq_getElem hr, List.getElem?_eq_getElem hm, hp']
+  split
+  · exact ⟨Nat.le_refl _, hlr⟩
+  · split
+    · exact ⟨hlr, Nat.le_refl _⟩
+    · exact ⟨by omega, by omega⟩
+
+/-- what `partition` establishes: the returned index `p` lies in the range, the range is rearranged
+within itself, everything left of `p` is strictly below the pivot now sitting at `p`, nothing right of it is -/
+def PartPost (c3 : α → α → Int) (items : List α) (left right : Nat) (st : List α × Nat) : Prop :=
+  left ≤ st.2 ∧ st.2 ≤ right ∧ RangeRel items st.1 left right ∧
+  (∀ i a x, left ≤ i → i < st.2 → st.1[i]? = some a → st.1[st.2]? = some x → c3 a x = -1) ∧
+  (∀ i a x, st.2 < i → i ≤ right → st.1[i]? = some a → st.1[st.2]? = some x → c3 a x ≠ -1)
+
+theorem partition_spec (hp : Pure3 cmp c3) (items : List α) (left right n : Nat)
+    (hlr : left ≤ right) (hr : right < items.length) :
+    PureSat (PartPost c3 items left right) (partition cmp items left right n) := by
+  unfold partition
+  split
+  · rename_i h
+    subst h
+    exact ⟨Nat.le_refl _, Nat.le_refl _, RangeRel.refl _ _ _, fun i a x h1 h2 => by omega,
+      fun i a x h1 h2 => by omega⟩
+  · rename_i hne
+    refine (choosePivot_spec hp items left right n hlr hr).bind (fun piv n1 hpiv => ?_)
+    obtain ⟨items1, hs, hl1⟩ := swap_some (l := items) (i := piv) (j := right) (by omega) hr
+    rw [hs]
+    simp only
+    have hr1 : right < items1.length := by omega
+    rw [List.getElem?_eq_getElem hr1]
+    simp only
+    refine (partLoop_spec hp items1[right] left right (right - left) items1 left left n1 (Nat.le_refl _)
+      (Nat.le_refl _) (by omega) hr1 (List.getElem?_eq_getElem hr1) (fun i a h1 h2 => by omega)
+      (fun i a h1 h2 => by omega)).bind (fun st n2 hst => ?_)
+    obtain ⟨q1, q2, q3, q4, q5, q6⟩ := hst
+    have hlen : st.1.length = items1.length := q3.len
+    obtain ⟨items2, hs2, hl2⟩ := swap_some (l := st.1) (i := st.2) (j := right) (by omega) (by omega)
+    obtain ⟨_, hg⟩ := swap_get hs2
+    rw [hs2]
+    have hst2 : st.2 < st.1.length := by omega
+    have hpivot : items2[st.2]? = some items1[right] := by
+      rw [hg st.2]
+      by_cases e : st.2 = right
+      · simp only [e, ite_true]; exact q4
+      · simp only [e, ite_false, ite_true]; exact q4
+    refine ⟨q1, q2, ?_, ?_, ?_⟩
+    · exact ((RangeRel.of_swap hs (by omega) (by omega) hlr (Nat.le_refl _)).trans q3).trans
+        (RangeRel.of_swap hs2 (by omega) q2 hlr (Nat.le_refl _))
+    · intro i a x h1 h2 hia hx
+      simp only at hia hx h2
+      rw [hpivot] at hx
+      cases hx
+      rw [hg i] at hia
+      have e1 : i ≠ right := by omega
+      have e2 : i ≠ st.2 := by omega
+      simp only [e1, e2, ite_false] at hia
+      exact q5 i a h1 h2 hia
+    · intro i a x h1 h2 hia hx
+      simp only at hia hx h1
+      rw [hpivot] at hx
+      cases hx
+      rw [hg i] at hia
+      have e2 : i ≠ st.2 := by omega
+      by_cases e1 : i = right
+      · simp only [e1, ite_true] at hia
+        exact q6 st.2 a (Nat.le_refl _) (by omega) hia
+      · simp only [e1, e2, ite_false] at hia
+        exact q6 i a (by omega) (by omega) hia
+
+/-- a three-way comparison that is a total preorder: `c3 a b = -1` "a below b", `= 1` "a above b",
+anything else "tied"; sign-antisymmetric, and "not above" is transitive -/
+structure TotalPre (c3 : α → α → Int) : Prop where
+  anti : ∀ a b, c3 a b = -1 ↔ c3 b a = 1
+  le_trans : ∀ a b c, c3 a b ≠ 1 → c3 b c ≠ 1 → c3 a c ≠ 1
+
+theorem TotalPre.refl (h : TotalPre c3) (a : α) : c3 a a ≠ 1 := by
+  intro e
+  have := (h.anti a a).mpr e
+  omega
+
+theorem TotalPre.le_of_not_lt (h : TotalPre c3) {a b : α} (e : c3 a b ≠ -1) : c3 b a ≠ 1 :=
+  fun e' => e ((h.anti a b).mpr e')
+
+def InvL (c3 : α → α → Int) (arr : List α) (left : Nat) : Prop :=
+  ∀ i j a b, i < left → left ≤ j → arr[i]? = some a → arr[j]? = some b → c3 a b ≠ 1
+def InvR (c3 : α → α → Int) (arr : List α) (right : Nat) : Prop :=
+  ∀ i j a b, i ≤ right → right < j → arr[i]? = some a → arr[j]? = some b → c3 a b ≠ 1
+
+theorem InvL.of_rangeRel {arr arr' : List α} {left right : Nat} (h : InvL c3 arr left)
+    (hr : RangeRel arr arr' left right) : InvL c3 arr' left := by
+  intro i j a b hi hj hia hjb
+  rw [hr.out i (Or.inl hi)] at hia
+  by_cases hjr : j ≤ right
+  · obtain ⟨j', q1, q2, q3⟩ := hr.inn j hj hjr
+    rw [q3] at hjb
+    exact h i j' a b hi q1 hia hjb
+  · rw [hr.out j (Or.inr (by omega))] at hjb
+    exact h i j a b hi hj hia hjb
+
+theorem InvR.of_rangeRel {arr arr' : List α} {left right : Nat} (h : InvR c3 arr right)
+    (hr : RangeRel arr arr' left right) : InvR c3 arr' right := by
+  intro i j a b hi hj hia hjb
+  rw [hr.out j (Or.inr hj)] at hjb
+  by_cases hil : left ≤ i
+  · obtain ⟨i', q1, q2, q3⟩ := hr.inn i hil hi
+    rw [q3] at hia
+    exact h i' j a b q2 hj hia hjb
+  · rw [hr.out i (Or.inl (by omega))] at hia
+    exact h i j a b hi hj hia hjb
+
+/-- after a partition round everything at or before `p` is not above everything at or after `p` -/
+theorem part_sep (ht : TotalPre c3) {arr' : List α} {left right p : Nat} {x : α}
+    (hl : InvL c3 arr' left) (hr : InvR c3 arr' right) (hpl : left ≤ p) (hpr : p ≤ right)
+    (hx : arr'[p]? = some x)
+    (hlt : ∀ i a x, left ≤ i → i < p → arr'[i]? = some a → arr'[p]? = some x → c3 a x = -1)
+    (hge : ∀ i a x, p < i → i ≤ right → arr'[i]? = some a → arr'[p]? = some x → c3 a x ≠ -1) :
+    (∀ i a, i ≤ p → arr'[i]? = some a → c3 a x ≠ 1) ∧ (∀ j b, p ≤ j → arr'[j]? = some b → c3 x b ≠ 1) := by
+  constructor
+  · intro i a hi hia
+    by_cases h1 : i < left
+    · exact hl i p a x h1 hpl hia hx
+    · by_cases h2 : i = p
+      · subst h2; rw [hx] at hia; cases hia; exact ht.refl _
+      · have := hlt i a x (by omega) (by omega) hia hx
+        omega
+  · intro j b hj hjb
+    by_cases h1 : right < j
+    · exact hr p j x b hpr h1 hx hjb
+    · by_cases h2 : j = p
+      · subst h2; rw [hx] at hjb; cases hjb; exact ht.refl _
+      · exact ht.le_of_not_lt (hge j b x (by omega) (by omega) hjb hx)
+
+/-- what `quickselect` delivers: the element at index `target` of the final array, with nothing above it
+before and nothing below it after -/
+def SelPost (c3 : α → α → Int) (target : Nat) (st : α × List α) : Prop :=
+  st.2[target]? = some st.1 ∧ (∀ i a, i < target → st.2[i]? = some a → c3 a st.1 ≠ 1) ∧
+    (∀ i a, target < i → st.2[i]? = some a → c3 a st.1 ≠ -1)
+
+theorem selectLoop_spec (hp : Pure3 cmp c3) (ht : TotalPre c3) (target fuel : Nat) (arr : List α)
+    (left right n : Nat) (hlt : left ≤ target) (htr : target ≤ right) (hr : right < arr.length)
+    (hf : right - left < fuel) (hL : InvL c3 arr left) (hR : InvR c3 arr right) :
+    PureSat (SelPost c3 target) (selectLoop cmp target fuel arr left right n) := by
+  induction fuel generalizing arr left right n with
+  | zero => omega
+  | succ fuel ih =>
+    simp only [selectLoop]
+    refine (partition_spec hp arr left right n (by omega) hr).bind (fun st n1 hst => ?_)
+    obtain ⟨arr', p⟩ := st
+    obtain ⟨q1, q2, q3, q4, q5⟩ := hst
+    simp only at q1 q2 q3 q4 q5 ⊢
+    have hL' := hL.of_rangeRel q3
+    have hR' := hR.of_rangeRel q3
+    have hlen : arr'.length = arr.length := q3.len
+    have hpl : p < arr'.length := by omega
+    have hx : arr'[p]? = some arr'[p] := List.getElem?_eq_getElem hpl
+    obtain ⟨s1, s2⟩ := part_sep ht hL' hR' q1 q2 hx q4 q5
+    split
+    · rename_i hpt
+      rw [hx]
+      subst hpt
+      refine ⟨hx, fun i a hi hia => s1 i a (by omega) hia, fun i a hi hia => ?_⟩
+      have := s2 i a (by omega) hia
+      intro e
+      exact this ((ht.anti a _).mp e)
+    · split
+      · split
+        · omega
+        · refine ih arr' left (p - 1) n1 hlt (by omega) (by omega) (by omega) hL' ?_
+          intro i j a b hi hj hia hjb
+          exact ht.le_trans a _ b (s1 i a (by omega) hia) (s2 j b (by omega) hjb)
+      · refine ih arr' (p + 1) right n1 (by omega) htr (by omega) (by omega) ?_ hR'
+        intro i j a b hi hj hia hjb
+        exact ht.le_trans a _ b (s1 i a (by omega) hia) (s2 j b (by omega) hjb)
+
+theorem countP_le_of_tail_false (P : α → Bool) (l : List α) (p : Nat)
+    (h : ∀ i a, p ≤ i → l[i]? = some a → P a = false) : l.countP P ≤ p := by
+  induction l generalizing p with
+  | nil => simp
+  | cons x t ih =>
+    cases p with
+    | zero =>
+      have : ∀ a ∈ x :: t, ¬ P a = true := by
+        intro a ha
+        obtain ⟨i, hi⟩ := List.getElem?_of_mem ha
+        simp [h i a (Nat.zero_le _) hi]
+      simp [List.countP_eq_zero.mpr this]
+    | succ p =>
+      have := ih p (fun i a hi hia => h (i + 1) a (by omega) (by simpa using hia))
+      rw [List.countP_cons]
+      split <;> omega
+
+theorem lt_countP_of_head_true (P : α → Bool) (l : List α) (p : Nat) (hp : p < l.length)
+    (h : ∀ i a, i ≤ p → l[i]? = some a → P a = true) : p < l.countP P := by
+  induction l generalizing p with
+  | nil => simp at hp
+  | cons x t ih =>
+    have hx : P x = true := h 0 x (Nat.zero_le _) (by simp)
+    rw [List.countP_cons, if_pos hx]
+    cases p with
+    | zero => omega
+    | succ p =>
+      have := ih p (by simpa using hp) (fun i a hi hia => h (i + 1) a (by omega) (by simpa using hia))
+      omega
+
+/-- **`quickselect` selects the element of rank `k`** (0-based) for a pure comparator that is a total
+preorder: it answers (no failure, no panic, fuel `len + 1` suffices), the answer `x` is an element of the
+input, at most `k` elements are strictly below it and more than `k` are not above it — i.e. `x` is tied
+with what any sort of the input puts at index `k`. -/
+theorem quickselect_rank (hp : Pure3 cmp c3) (ht : TotalPre c3) (arr : List α) (k : Nat)
+    (hk : k < arr.length) :
+    ∃ x arr' n, quickselect cmp arr k = .ok (x, arr') n ∧ x ∈ arr ∧ arr'.Perm arr ∧
+      arr.countP (fun y => decide (c3 y x = -1)) ≤ k ∧ k < arr.countP (fun y => decide (c3 y x ≠ 1)) := by
+  unfold quickselect
+  rw [if_neg (by omega)]
+  have hs := selectLoop_spec hp ht k (arr.length + 1) arr 0 (arr.length - 1) 0 (Nat.zero_le _) (by omega)
+    (by omega) (by omega) (fun i j a b hi => by omega)
+    (fun i j a b hi hj hia hjb => by
+      have := lt_length_of_getElem? hjb
+      omega)
+  have hc := selectLoop_conserves cmp k (arr.length + 1) arr 0 (arr.length - 1) 0
+  cases hr : selectLoop cmp k (arr.length + 1) arr 0 (arr.length - 1) 0 with
+  | fail e b m => rw [hr] at hs; exact hs.elim
+  | panic => rw [hr] at hs; exact hs.elim
+  | ok st m =>
+    obtain ⟨x, arr'⟩ := st
+    rw [hr] at hs hc
+    obtain ⟨s1, s2, s3⟩ := hs
+    simp only at s1 s2 s3
+    have hperm : arr'.Perm arr := hc
+    have hk' : k < arr'.length := by rw [hperm.length_eq]; exact hk
+    refine ⟨x, arr', m, rfl, hperm.subset (List.mem_of_getElem? s1), hperm, ?_, ?_⟩
+    · rw [← hperm.countP_eq]
+      apply countP_le_of_tail_false
+      intro i a hi hia
+      by_cases e : i = k
+      · subst e; rw [s1] at hia; cases hia
+        have := ht.refl x
+        have h2 := (ht.anti x x)
+        simp only [decide_eq_false_iff_not]
+        intro e'; exact this (h2.mp e')
+      · simpa using s3 i a (by omega) hia
+    · rw [← hperm.countP_eq]
+      apply lt_countP_of_head_true _ _ _ hk'
+      intro i a hi hia
+      by_cases e : i = k
+      · subst e; rw [s1] at hia; cases hia
+        simpa using ht.refl x
+      · simpa using s2 i a (by omega) hia
+
+/-- integer comparison (the sign of `a - b`) is a total preorder in the sense of `TotalPre` -/
+theorem int_totalPre : TotalPre (fun a b : Int => if a < b then -1 else if b < a then 1 else 0) := by
+  constructor
+  · intro a b
+    split <;> split <;> (try split) <;> (try split) <;> omega
+  · intro a b c
+    split <;> split <;> (try split) <;> (try split) <;> (try split) <;> (try split) <;> omega
+
+end spec
+end Select
 end XrayModel.Sort
